@@ -43,6 +43,6 @@ func (t *tokens_t) ret() {
 	vhook("tok.ret", atomic.LoadInt64(&t.clients), len(t.ch))
 }
 
-func (t tokens_t) count() int64 {
+func (t *tokens_t) count() int64 {
 	return atomic.LoadInt64(&t.clients)
 }
